@@ -252,7 +252,12 @@ pub fn optimizer_hazard(rng: &mut Rng, v: &mut Vec<Cmd>) {
         0 => {
             // counted loop that prints each round: more jumps than the speculation budget
             //   형*N | H: 형.♥ | 흣.... | 하앙... | 형*65 | 항. | 흑... | J: 형.??♥
-            let n = if rng.chance(70) { rng.usize(95, 260) } else { rng.usize(2, 94) };
+            // around the pre-execution's jump budget, exactly at it, well beyond, or small
+            let n = match rng.below(10) {
+                0..=2 => *rng.pick(&[98usize, 99, 100, 101, 102, 103]),
+                3..=6 => rng.usize(95, 260),
+                _ => rng.usize(2, 94),
+            };
             let ch = rng.usize(33, 126);
             let junk = rng.usize(4, 8);
             ins.push(Cmd::new(0, n, 1, RArea::Nil));
@@ -592,6 +597,11 @@ pub fn arith_template(rng: &mut Rng, v: &mut Vec<Cmd>) {
                 ins.push(Cmd::new(0, rng.usize(1, 3), rng.usize(0, 9), RArea::Node(0, Box::new(RArea::Nil), Box::new(RArea::Node(t, Box::new(RArea::Nil), Box::new(RArea::Nil))))));
             }
         }
+    }
+    if rng.chance(15) {
+        // the value itself to an output stack: a character, a diagnosed encoding error, or (>= 2^32) unspecified
+        ins.push(Cmd::new(5, 1, 3, RArea::Nil));
+        ins.push(Cmd::new(1, 1, rng.usize(1, 2), RArea::Nil));
     }
     // show something: negated copies print as text on stdout/stderr
     for _ in 0..rng.usize(0, 2) {
